@@ -188,10 +188,12 @@ protected:
     //when try_lock fails, we need to register itself to waiting queue (_requests)
     bool subscribe(awaiter *aw) {
         //so subscribe to _requests
-        aw->subscribe(_requests);
-        //now check result of _next, which gives as hint, how lock operation ended
-        //if the _next is null, the lock was unlock
-        if (aw->_next== nullptr) [[likely]] {
+        //(don't read aw->_next after subscribe - the awaiter can be already resumed
+        //by unlocking thread - use value returned by subscribe())
+        awaiter *prev = aw->subscribe(_requests);
+        //now check previous top, which gives as hint, how lock operation ended
+        //if it is null, the lock was unlock
+        if (prev == nullptr) [[likely]] {
             //because current awaiter will be destroyed, we need to replace self
             //with a doorman()
             //the function build_queue does this, even if there is no requests currentl
